@@ -426,7 +426,7 @@ def _firstuse(res, name, fn, inputs, quick):
         return 1, 0
     path = sys.modules[name].__file__
     total = 0
-    for b in inputs[:24 if quick else 200]:
+    for b in inputs[:24 if quick else 60]:
         events = [(name, fn, (inputs[0],), ()), (name, fn, (b,), ())]
         exp = [pristine(e) for e in events]
 
@@ -449,7 +449,7 @@ def _firstuse(res, name, fn, inputs, quick):
                          devclass='firstuse:%s.%s' % (name, fn), rank=[sum(1 for c in taken if c), len(taken), repr(taken)])
             return repr(sorted(results.items()))
         execs, outcomes, capped = e4.explore_schedules(mk, _GlobalsWatch(path, changed), 2, reset, check,
-                                                       max_execs=400 if quick else 5000, watch_module_code=False, horizon=20000)
+                                                       max_execs=400 if quick else 1500, watch_module_code=False, horizon=20000)
         if capped:
             res['extra'].setdefault('caps_hit', {})['firstuse:%s' % name] = execs
         total += execs
@@ -687,10 +687,10 @@ def work(item):
             bound = 2 if quick else 4
             slow = any(e[0] == 'stdnum.mac' for e in pair)       # oui.dat takes ~0.2 s to load in every execution
             execs, outcomes, capped, touch = explore_pair(res, pair, 1 if slow else bound, False, 'sched',
-                                                          (60 if slow else 3000) if quick else (600 if slow else 30000))
+                                                          (60 if slow else 3000) if quick else (600 if slow else 12000))
         else:
             pair = SCHEDULE_PAIRS[0]
-            execs, outcomes, capped, touch = explore_pair(res, pair, 2, False, 'sched', 30000, nthreads=3)
+            execs, outcomes, capped, touch = explore_pair(res, pair, 2, False, 'sched', 12000, nthreads=3)
         n += execs
         nt += touch
         res['extra']['schedule_outcome_classes'] = {'%s|%s' % (pair[0][1] + pair[0][2][0][:6], pair[1][1] + pair[1][2][0][:6]): len(outcomes)}
